@@ -39,7 +39,7 @@ class TypeDB:
 
 def _digest(repo: Repo) -> str:
     sha = hashlib.sha256()
-    sha.update(b"typedb-v3")
+    sha.update(b"typedb-v4")
     for rel in sorted(repo.modules):
         sha.update(rel.encode())
         sha.update(repo.modules[rel].source.encode())
